@@ -16,7 +16,7 @@ REPO = os.environ.get('VX_REPO', '/repo')
 STUBS = os.path.join(VERIF, 'stubs')
 NCPU = int(os.environ.get('VX_JOBS', '16'))
 BASE_CXXFLAGS = ['-O2', '-DNDEBUG', '-std=gnu++11', '-mcx16', '-I' + REPO]
-MEM_KB = int(os.environ.get('VX_MEM_GB', '12')) * 1024 * 1024
+MEM_KB = int(os.environ.get('VX_MEM_GB', '24')) * 1024 * 1024
 
 
 class Drift(Exception):
